@@ -4,7 +4,7 @@
 using namespace CDNS;
 
 // ------------------------------------------------------------------ configuration
-struct ParamSpec { uint64_t max_items; uint64_t tps; int hints; bool coll; };
+struct ParamSpec { uint64_t max_items; uint64_t tps; int hints; int coll; };   // coll: 0 no collection parameters, 1 several members, 2 present but empty, 3 one member
 struct Cfg { std::string name; std::vector<ParamSpec> sets; ParamSpec extra; };
 
 static BlockParameters build_bp(const ParamSpec& s) {
@@ -19,7 +19,9 @@ static BlockParameters build_bp(const ParamSpec& s) {
     case 4: h.query_response_hints = 0; break;
     case 5: h.query_response_hints = 0x3ffff & ~1u; break; // no time offsets
     }
-    if (s.coll) { CollectionParameters c; c.query_timeout = 5; c.promisc = true; c.interfaces = {"eth0", "lo"}; c.vlan_ids = {1, 4094}; c.host_id = std::string("h\xc3\xa9"); bp.collection_parameters = c;
+    if (s.coll == 2) bp.collection_parameters = CollectionParameters();
+    if (s.coll == 3) { CollectionParameters c; c.snaplen = 65535; bp.collection_parameters = c; }
+    if (s.coll == 1) { CollectionParameters c; c.query_timeout = 5; c.promisc = true; c.interfaces = {"eth0", "lo"}; c.vlan_ids = {1, 4094}; c.host_id = std::string("h\xc3\xa9"); bp.collection_parameters = c;
         sp.storage_flags = (StorageFlagsMask)3; sp.sampling_method = std::string("none"); sp.client_address_prefix_ipv6 = 64; }
     return bp;
 }
